@@ -308,6 +308,8 @@ def monitor_trace(t, P):
     at_call = {}          # task -> (oid, name of the step whose outcome it is waiting for)
     zero_decided = {}     # zero-wait get -> (closed, permits, step) when its try_acquire ran
     recycling = {}        # task -> object whose Manager::recycle it is waiting for
+    start_at = {}         # task -> index of its Start label
+    quiet_pending = {}    # cancelled quiet get -> index of its Start label (C03)
     cancelled_tasks = set()   # gets that were abandoned (future dropped, or a panic of the manager / a hook)
     failed_step = {}      # oid -> name of the verification step that failed (C04)
     expect_res = {}       # task -> (result code, why, name) after a failing create / post_create hook
@@ -330,6 +332,26 @@ def monitor_trace(t, P):
             failed_step[recycling[l[1]]] = 'recycle check'
         if l[0] == 3:
             cancelled_tasks.add(l[1])
+            # C03, the quiet case: a get() that made no manager / hook call and was abandoned while no other task
+            # moved leaves the books as they were before it started (paying shrink debt with a permit is allowed:
+            # permits - debt is what counts); evaluated when the cancelled task has finished dropping its future
+            j = start_at.get(l[1])
+            if not is_h2 and j is not None and j > 0 and ops.get(l[1], [0, 0, -1])[2] == 0 \
+                    and all(l2[1] == l[1] and l2[0] in (0, 1, 3) for l2 in t['labels'][j:i + 1]) \
+                    and not any(P[k2]['events'] for k2 in range(j, i + 1)):
+                quiet_pending[l[1]] = j
+        for tt, j in list(quiet_pending.items()):
+            if l[1] != tt or l[0] not in (1, 3) or d['events'] or not d['alive'] or not P[j - 1]['alive']:
+                del quiet_pending[tt]
+            elif tt < len(d['tasks']) and d['tasks'][tt] >= 100:
+                del quiet_pending[tt]
+                b0, b1 = P[j - 1], d
+                books0 = (b0['permits'] - b0['debt'], b0['size'], b0['max'], b0['users'], b0['idle'], b0['closed'])
+                books1 = (b1['permits'] - b1['debt'], b1['size'], b1['max'], b1['users'], b1['idle'], b1['closed'])
+                if books0 != books1:
+                    fail('C03', i, 'the get() of task %d (steps %d-%d, no manager call, nobody else moved) was abandoned and '
+                                   'left (permits - debt, size, max_size, users, idle, closed) = %s, before it: %s'
+                         % (tt, j, i, books1, books0))
         if l[0] == 2 and l[2] == 2:
             cancelled_tasks.add(l[1])
         if l[0] == 2 and l[1] in at_call:
@@ -343,6 +365,7 @@ def monitor_trace(t, P):
                 failed_step[oc[0]] = oc[1] + ' (cancelled)'
         if l[0] == 0:
             ops[l[1]] = l
+            start_at[l[1]] = i
             if l[2] in (1, 2):
                 tr.held.discard(l[3])
             if l[2] == 2:
